@@ -758,10 +758,15 @@ class Context:
         json_obj = JSObject()
         ctx = self  # Reference for closures
 
+        def reject_constant(name):
+            # NaN, Infinity and -Infinity are extensions of the host decoder,
+            # not JSON
+            raise json.JSONDecodeError(f"Unexpected token {name}", name, 0)
+
         def parse_fn(*args):
             text = to_string(args[0]) if args else ""
             try:
-                py_value = json.loads(text)
+                py_value = json.loads(text, parse_constant=reject_constant)
                 return ctx._to_js(py_value)
             except json.JSONDecodeError as e:
                 from .errors import JSSyntaxError
